@@ -43,7 +43,7 @@ PAIRS = [
     ("C", "statC", Fraction(2997924580), Fraction(0)),  # EM branch (CGS <-> SI)
 ]
 # magnitude of the terms that cancel when the offset of a pair is formed (enters the tolerance)
-CANCEL = {("degF", "degC"): Fraction(530), ("degC", "K"): Fraction(27315, 100), ("degC", "mks"): Fraction(27315, 100)}
+CANCEL = {("degF", "degC"): Fraction(530), ("degC", "K"): Fraction(27315, 100), ("degC", "mks"): Fraction(27315, 100), ("K", "degC"): Fraction(27315, 100)}
 # base-system routes: unit, system, target spelled by hand, factor
 BASES = [
     ("km", "cgs", "cm", Fraction(100000), Fraction(0)),
@@ -424,7 +424,12 @@ def _sweep(chk, tier):
                 ask(["c17.warn", "inplace" if kclass == "inplace" else "copy", d.kind, d.itemsize, vs], ("warn", name, d.name, vs[:60], 1 if R.warn_unyt else 0))
         return R
 
-    pairs = PAIRS if not quick else PAIRS
+    pairs = PAIRS if quick else PAIRS + [
+        ("lb", "kg", Fraction(45359237, 10 ** 8), Fraction(0)),
+        ("ft", "m", Fraction(3048, 10000), Fraction(0)),
+        ("mile", "inch", Fraction(63360), Fraction(0)),
+        ("K", "degC", Fraction(1), Fraction(27315, 100)),
+    ]
     def shapes(d):
         return (False,) if d.kind == "b" else (False, True)
 
